@@ -258,6 +258,7 @@ def check_c04(chk, args):
                               'longest accepted prefix = %d items: %s' % (longest_prefix(v2, c['id']), describe(m)), m)
     chk.stage('verdict', accepted=len(u.cases) - len(rejected), known_finding=n_known,
               violations=len(chk.violations))
+    pformat_documents(chk)
     # render clause
     import render_check
     render_check.run(chk, u)
@@ -268,9 +269,65 @@ def check_c04(chk, args):
             'flat_choice/fill), distinct by (document, width, ribbon, strategy)')
 
 
+def pformat_documents(chk):
+    """C04 on the documents the bundled printers really build (opaque contextual
+    documents are explained by their logged evaluations)."""
+    import warnings
+    import doccapture
+    import values
+    import prettyprinter as P
+    q = chk.tier == 'quick'
+    rng = chk.rng
+    vals = values.layout_corpus(chk)
+    cases = []
+    metas = {}
+    cid = 10 ** 6
+    fails = 0
+    for name, v in vals:
+        for (w, rw, ind) in values.configs_for(rng, 3 if q else 8):
+            with doccapture.capturing() as cap:
+                try:
+                    with warnings.catch_warnings():
+                        warnings.simplefilter('ignore')
+                        P.pformat(v, width=w, ribbon_width=rw, indent=ind)
+                except Exception:
+                    fails += 1
+                    continue
+            for call in cap.calls:
+                cid += 1
+                cases.append(doccapture.case_from_call(cid, call))
+                metas[cid] = {'value': name, 'width': w, 'ribbon_width': rw, 'indent': ind,
+                              'stream': [x if isinstance(x, str) else repr(x) for x in call['stream']][:60]}
+    v, st = common.tlc_batch('LayoutSpec', CFG, cases, os.path.join(chk.workdir, 'pformat'),
+                             tags=('ACCEPT', 'POS'), min_per_shard=50, heap='3g')
+    chk.add_model(st)
+    rejected = [c for c in cases if c['id'] not in v['ACCEPT']]
+    n_known = 0
+    if rejected:
+        v2 = rerun(chk, rejected, 'pformat-relaxed', strict=False, diag=True)
+        kf = chk.match_finding('C04.forced', HLF)
+        for c in rejected:
+            m = metas[c['id']]
+            useds = [set(a[3][1]) for a in v2['ACCEPT'].get(c['id'], [])]
+            if useds and any(us == {HLF} for us in useds) and kf:
+                chk.known(kf)
+                n_known += 1
+            elif useds:
+                chk.violation('C04.forced', 'pformat document: forced-break rule violated: %r' % (m,), m)
+            else:
+                chk.violation('C04.core', 'pformat document: stream is not a layout of the document built by '
+                              'the printers; longest accepted prefix = %d: %r' % (longest_prefix(v2, c['id']), m), m)
+    chk.cov['pformat_traces'] = len(cases)
+    chk.cov['traces_validated_against_impl'] += len(cases)
+    chk.stage('pformat-documents', values=len(vals), traces=len(cases), rejected=len(rejected),
+              known_finding=n_known, states=st['distinct'], wall=round(st['wall'], 1), raised=fails)
+    for c in cases[:2]:
+        chk.sample({'pformat_document': metas[c['id']]})
+
+
 def account(chk, u, rule):
     chk.cov['evaluations'] = len(u.cases) + len(u.construct_failures) + len(u.layout_failures)
-    chk.cov['traces_validated_against_impl'] = len(u.cases)
+    chk.cov['traces_validated_against_impl'] += len(u.cases)
     for c in u.cases:
         m = u.meta[c['id']]
         if has_choice(m['term']):
